@@ -14,7 +14,9 @@ RULE = ('kernels in dimension 1-3 over 3 scalar and 3 vector functions: sums of 
         'with numeric, Constant and coordinate coefficients, integer / Constant / chain-valued exponents, '
         'sin/cos/exp of sub-kernels, matrices (square and non-square: 1xn, nx1, 2x3, 3x2, ...) and tuples of kernels; '
         'the oracle additionally assembles matrices of every shape up to 4x4 / tuples / lists from explicit entry '
-        'descriptions and compares shape and every entry with a result assembled from the descriptions alone.  '
+        'descriptions and compares shape and every entry with a result assembled from the descriptions alone, and '
+        '(outside the Lean model, which has unary functions only) checks get_max_* / SymbolicExpr on kernels with chains in '
+        'every argument of atan2, undefined functions, besselj, Heaviside, Piecewise, Max, Min against the recorded multi-indices.  '
         'One case = one call of SymbolicExpr, '
         'get_max_(logical_)partial_derivatives (overall and per function), get_index_(logical_)derivatives_atom or '
         'sort_partial_derivatives; non-trivial = the kernel holds at least one derivative chain; distinct by request line')
@@ -43,8 +45,9 @@ LOGI = ('x1', 'x2', 'x3')
 
 
 class Gen:
-    def __init__(self, rng, env, m):
-        self.rng, self.env, self.m = rng, env, m
+    def __init__(self, rng, env, m, multi=False):
+        # multi: also functions of 2-3 arguments (oracle only: the Lean AST has unary functions, `fn f a`)
+        self.rng, self.env, self.m, self.multi = rng, env, m, multi
         dv = m['dv']
         self.ops = {'x': dv.dx, 'y': dv.dy, 'z': dv.dz, 'x1': dv.dx1, 'x2': dv.dx2, 'x3': dv.dx3}
 
@@ -94,6 +97,9 @@ class Gen:
         r, m = self.rng, self.m
         fs = []
         for _ in range(r.choice([1, 1, 2, 2, 3])):
+            if self.multi and r.random() < 0.025:
+                fs.append(self.multi_fn(depth))
+                continue
             k = r.random()
             if k < 0.62 or depth >= 3:
                 f = self.chain()
@@ -111,6 +117,17 @@ class Gen:
         if r.random() < 0.6:
             fs.append(self.coef())
         return m['sympy'].Mul(*fs)
+
+    def multi_fn(self, depth):
+        """a sympy `Function` of 2-3 arguments that SymbolicExpr translates argument by argument"""
+        r, sympy = self.rng, self.m['sympy']
+        arg = (lambda: self.chain()) if depth >= 2 else (lambda: self.chain() if r.random() < 0.5 else self.scalar(depth + 1))
+        h = r.choice(['atan2', 'atan2', 'phi', 'besselj', 'Heaviside'])
+        if h == 'phi':
+            return sympy.Function('phi')(*[arg() for _ in range(r.choice([2, 3]))])
+        if h == 'besselj':
+            return sympy.besselj(r.choice([0, 1, 2]), arg())
+        return getattr(sympy, h)(arg(), arg())
 
     def scalar(self, depth=0):
         r, m = self.rng, self.m
@@ -435,6 +452,321 @@ def fixed_mspecs():
     return out
 
 
+# ---- kernels with functions of several arguments, assembled from explicit descriptions (JSON-able)
+#   chain = {'f': ['s', i] | ['v', i, comp], 'cs': [coordinate names, innermost first; both kinds allowed]}
+#   node  = {'t': 'ch', 'ch': chain} | {'t': 'num', 'v': int} | {'t': 'coord', 'i': i} | {'t': 'cst', 'i': i}
+#         | {'t': 'add' | 'mul', 'a': [node]} | {'t': 'pow', 'a': [base, exponent]}
+#         | {'t': 'fn', 'h': head, 'a': [node]}         head: ONE_ARG (1 argument) or MULTI_ARG (2-3 arguments)
+#         | {'t': 'pw', 'a': [[node, cond | None]]}     Piecewise; cond = {'rel': '>' | '<' | '>=', 'l': node, 'r': node}
+#         | {'t': 'mat', 'shape': [r, c], 'a': [node]} | {'t': 'tup', 'a': [node]}
+#   kspec = {'dim': d, 'root': node}
+# The ground truth of get_max_* is the maximum of the multi-indices *recorded in the description* (per function):
+# nothing of the real tree is traversed for it.
+
+ONE_ARG = ('sin', 'cos', 'exp', 'log', 'tanh')
+MULTI_FUNCTION = ('atan2', 'phi', 'besselj', 'Heaviside')     # sympy `Function` subclasses taking several arguments
+MULTI_OTHER = ('Max', 'Min')                                   # several arguments, not `Function` subclasses
+MULTI_ARG = MULTI_FUNCTION + MULTI_OTHER
+
+
+def k_chains(node, out=None):
+    """the chain descriptions of a node, in order of appearance"""
+    out = [] if out is None else out
+    t = node['t']
+    if t == 'ch':
+        out.append(node['ch'])
+    elif t == 'pw':
+        for e, cnd in node['a']:
+            k_chains(e, out)
+            if cnd:
+                k_chains(cnd['l'], out)
+                k_chains(cnd['r'], out)
+    else:
+        for a in node.get('a', ()):
+            k_chains(a, out)
+    return out
+
+
+def k_heads(node, out=None):
+    out = set() if out is None else out
+    t = node['t']
+    if t == 'fn':
+        out.add(node['h'])
+    elif t in ('pw', 'mat', 'tup'):
+        out.add(t)
+    if t == 'pw':
+        for e, cnd in node['a']:
+            k_heads(e, out)
+            if cnd:
+                k_heads(cnd['l'], out)
+                k_heads(cnd['r'], out)
+    else:
+        for a in node.get('a', ()):
+            k_heads(a, out)
+    return out
+
+
+def k_truth(chs, keys, F=None):
+    """maximal order per direction of `keys` over the recorded multi-indices (of the function F = ['s', i] / ['v', i, c])"""
+    d = [0, 0, 0]
+    for ch in chs:
+        if F is not None and list(ch['f']) != list(F):
+            continue
+        for i, k in enumerate(keys):
+            d[i] = max(d[i], ch['cs'].count(k))
+    return d
+
+
+def k_chain_symbol(env, m, ch):
+    """name[_component] + one `_sorted code` per block of derivatives of one kind, innermost block first"""
+    f = ch['f']
+    name = str(env.sf[f[1]].name) if f[0] == 's' else '%s_%d' % (env.vf[f[1]].name, f[2])
+    blocks = []
+    for c in ch['cs']:
+        lg = c in LOGI
+        if not blocks or blocks[-1][0] != lg:
+            blocks.append([lg, []])
+        blocks[-1][1].append(c)
+    for lg, cs in blocks:
+        name += '_' + ''.join(k * cs.count(k) for k in (LOGI if lg else PHYS))
+    return m['Symbol'](name)
+
+
+def k_build(env, m, node, leaf):
+    """the kernel of a description; leaf(chain) = the real chain, or its expected symbol"""
+    sympy = m['sympy']
+    t = node['t']
+    rec = lambda n: k_build(env, m, n, leaf)   # noqa
+    if t == 'ch':
+        return leaf(node['ch'])
+    if t == 'num':
+        return m['S'](node['v'])
+    if t == 'coord':
+        return env.coords[node['i'] % env.dim]
+    if t == 'cst':
+        return env.cst[node['i'] % len(env.cst)]
+    if t == 'add':
+        return sympy.Add(*[rec(a) for a in node['a']])
+    if t == 'mul':
+        return sympy.Mul(*[rec(a) for a in node['a']])
+    if t == 'pow':
+        return sympy.Pow(rec(node['a'][0]), rec(node['a'][1]))
+    if t == 'fn':
+        h = node['h']
+        head = sympy.Function('phi') if h == 'phi' else getattr(sympy, h)
+        return head(*[rec(a) for a in node['a']])
+    if t == 'pw':
+        rel = {'>': sympy.Gt, '<': sympy.Lt, '>=': sympy.Ge}
+        pairs = []
+        for e, cnd in node['a']:
+            pairs.append((rec(e), True if cnd is None else rel[cnd['rel']](rec(cnd['l']), rec(cnd['r']))))
+        return sympy.Piecewise(*pairs)
+    if t == 'mat':
+        return m['Matrix'](node['shape'][0], node['shape'][1], [rec(a) for a in node['a']])
+    if t == 'tup':
+        return m['Tuple'](*[rec(a) for a in node['a']])
+    raise ValueError('unknown node %r' % (t,))
+
+
+class KGen:
+    """descriptions of kernels in which derivative chains sit in every argument position of functions of 2-3 arguments"""
+
+    def __init__(self, rng, dim):
+        self.rng, self.dim = rng, dim
+
+    def chain(self, nmin=0):
+        r, d = self.rng, self.dim
+        f = ['s', r.randrange(3)] if r.random() < 0.55 else ['v', r.randrange(3), r.randrange(d)]
+        lg = r.random() < 0.4
+        names = (LOGI if lg else PHYS)[:d]
+        cs = [r.choice(names) for _ in range(max(nmin, r.choice([0, 1, 1, 1, 2, 2, 3, 4])))]
+        if cs and r.random() < 0.1:      # a block of the other kind on top
+            other = (PHYS if lg else LOGI)[:d]
+            cs += [r.choice(other) for _ in range(r.choice([1, 1, 2]))]
+        return {'t': 'ch', 'ch': {'f': f, 'cs': cs}}
+
+    def num(self):
+        return {'t': 'num', 'v': self.rng.choice([1, 2, 3, -1, 5])}
+
+    def small(self, depth):
+        """an argument of a function"""
+        r = self.rng
+        k = r.random()
+        if k < 0.5:
+            return self.chain()
+        if k < 0.58:
+            return {'t': 'add', 'a': [self.num(), {'t': 'pow', 'a': [self.chain(1), {'t': 'num', 'v': 2}]}]}
+        if k < 0.66:
+            return {'t': 'mul', 'a': [r.choice([self.num(), {'t': 'cst', 'i': r.randrange(2)}, {'t': 'coord', 'i': r.randrange(3)}]), self.chain()]}
+        if k < 0.72:
+            return {'t': 'mul', 'a': [self.chain(), self.chain(1)]}
+        if k < 0.78:
+            return {'t': 'add', 'a': [self.chain(), self.chain(1)]}
+        if k < 0.84:
+            return {'t': 'fn', 'h': r.choice(ONE_ARG), 'a': [self.chain(1)]}
+        if k < 0.92 and depth < 2:
+            return self.multi(depth + 1)
+        return r.choice([self.num(), {'t': 'coord', 'i': r.randrange(3)}, {'t': 'cst', 'i': r.randrange(2)}])
+
+    def cond(self, depth):
+        r = self.rng
+        k = r.random()
+        left = self.chain() if k < 0.6 else ({'t': 'coord', 'i': r.randrange(3)} if k < 0.85 else self.small(depth + 1))
+        return {'rel': r.choice(['>', '<', '>=']), 'l': left, 'r': {'t': 'num', 'v': r.choice([0, 0, 1, -1])}}
+
+    def multi(self, depth=0):
+        """one node with several arguments"""
+        r = self.rng
+        h = r.choice(['atan2', 'atan2', 'atan2', 'pw', 'pw', 'phi', 'phi', 'besselj', 'Heaviside', 'Max', 'Min'])
+        if h == 'pw':
+            n = r.choice([2, 2, 3])
+            return {'t': 'pw', 'a': [[self.small(depth), self.cond(depth)] for _ in range(n - 1)] + [[self.small(depth), None]]}
+        if h == 'besselj':
+            return {'t': 'fn', 'h': h, 'a': [{'t': 'num', 'v': r.choice([0, 1, 2])}, self.small(depth)]}
+        n = 2 if h in ('atan2', 'Heaviside') else r.choice([2, 3])
+        return {'t': 'fn', 'h': h, 'a': [self.small(depth) for _ in range(n)]}
+
+    def root(self):
+        r = self.rng
+        k = r.random()
+        if k < 0.4:
+            return self.multi()
+        if k < 0.55:
+            return {'t': 'fn', 'h': r.choice(ONE_ARG), 'a': [self.multi()]}
+        if k < 0.8:
+            terms = [{'t': 'mul', 'a': [self.chain(), self.multi()]}] + [self.small(1) for _ in range(r.choice([0, 1, 2]))]
+            r.shuffle(terms)
+            return {'t': 'add', 'a': terms} if len(terms) > 1 else terms[0]
+        if k < 0.87:
+            pair = [self.multi(), r.choice([{'t': 'num', 'v': 2}, self.chain(1)])]
+            if r.random() < 0.5:
+                pair.reverse()
+            return {'t': 'pow', 'a': pair}
+        if k < 0.95:
+            nr, nc = r.choice([(1, 2), (2, 1), (2, 2), (1, 3)])
+            ent = [self.small(1) for _ in range(nr * nc)]
+            ent[r.randrange(nr * nc)] = self.multi()
+            return {'t': 'mat', 'shape': [nr, nc], 'a': ent}
+        ent = [self.small(1) for _ in range(r.choice([2, 3]))]
+        ent[r.randrange(len(ent))] = self.multi()
+        return {'t': 'tup', 'a': ent}
+
+    def kspec(self):
+        return {'dim': self.dim, 'root': self.root()}
+
+
+def fixed_kspecs():
+    """(stable label, kspec): chains in the second / third argument of functions of several arguments, with controls"""
+    def ch(f, *cs):
+        return {'t': 'ch', 'ch': {'f': list(f), 'cs': list(cs)}}
+
+    def fn(h, *a):
+        return {'t': 'fn', 'h': h, 'a': list(a)}
+
+    def num(v):
+        return {'t': 'num', 'v': v}
+
+    def add(*a):
+        return {'t': 'add', 'a': list(a)}
+
+    def mul(*a):
+        return {'t': 'mul', 'a': list(a)}
+
+    def pw(*pairs):
+        return {'t': 'pw', 'a': [list(p) for p in pairs]}
+
+    def gt(l, v=0):
+        return {'rel': '>', 'l': l, 'r': num(v)}
+    u, v, w = ('s', 0), ('s', 1), ('s', 2)
+    F0, F1, G2 = ('v', 0, 0), ('v', 0, 1), ('v', 1, 2)
+    sq = lambda a: {'t': 'pow', 'a': [a, num(2)]}   # noqa
+    out = [
+        # controls: one argument, first argument, non-Function heads
+        ('control:sin(dx(u)*dy(dy(v)))+dz(u)', 3, add(fn('sin', mul(ch(u, 'x'), ch(v, 'y', 'y'))), ch(u, 'z'))),
+        ('control:atan2(dx(dx(u)),v)', 3, fn('atan2', ch(u, 'x', 'x'), ch(v))),
+        ('control:Max(dx(u),dy(dy(v)))', 3, fn('Max', ch(u, 'x'), ch(v, 'y', 'y'))),
+        ('control:Min(u,dx(F[0]),dz(dz(v)))', 3, fn('Min', ch(u), ch(F0, 'x'), ch(v, 'z', 'z'))),
+        # functions of two / three arguments
+        ('atan2(dy(u),dx(u))', 3, fn('atan2', ch(u, 'y'), ch(u, 'x'))),
+        ('atan2(dy(u),dx(u)):2d', 2, fn('atan2', ch(u, 'y'), ch(u, 'x'))),
+        ('atan2(u,dx(u)):1d', 1, fn('atan2', ch(u), ch(u, 'x'))),
+        ('v*atan2(dx(u),dz(dy(dy(v))))+dx(v)', 3, add(mul(ch(v), fn('atan2', ch(u, 'x'), ch(v, 'y', 'y', 'z'))), ch(v, 'x'))),
+        ('atan2(dx(F[0]),dz(dz(F[1])))', 3, fn('atan2', ch(F0, 'x'), ch(F1, 'z', 'z'))),
+        ('atan2(dx1(u),dx3(dx2(dx2(v))))', 3, fn('atan2', ch(u, 'x1'), ch(v, 'x2', 'x2', 'x3'))),
+        ('atan2(dx(u),dx(dx1(v)))', 3, fn('atan2', ch(u, 'x'), ch(v, 'x1', 'x'))),
+        ('exp(atan2(dx(u),1+dy(u)**2))', 3, fn('exp', fn('atan2', ch(u, 'x'), add(num(1), sq(ch(u, 'y')))))),
+        ('sin(atan2(u,dy(dy(G[2]))))*dx(u)', 3, mul(fn('sin', fn('atan2', ch(u), ch(G2, 'y', 'y'))), ch(u, 'x'))),
+        ('atan2(dx(u),atan2(dy(u),dz(dz(u))))', 3, fn('atan2', ch(u, 'x'), fn('atan2', ch(u, 'y'), ch(u, 'z', 'z')))),
+        ('dx(u)**atan2(v,dy(dy(v)))', 3, {'t': 'pow', 'a': [ch(u, 'x'), fn('atan2', ch(v), ch(v, 'y', 'y'))]}),
+        ('Matrix([[atan2(dx(u),dy(dy(v))),dx(w)]])', 3, {'t': 'mat', 'shape': [1, 2], 'a': [fn('atan2', ch(u, 'x'), ch(v, 'y', 'y')), ch(w, 'x')]}),
+        ('(u,atan2(v,dz(v)))', 3, {'t': 'tup', 'a': [ch(u), fn('atan2', ch(v), ch(v, 'z'))]}),
+        ('phi(u,dx(u),dx(dx(F[1])))', 3, fn('phi', ch(u), ch(u, 'x'), ch(F1, 'x', 'x'))),
+        ('phi(dx1(u),dx2(dx2(v)))', 2, fn('phi', ch(u, 'x1'), ch(v, 'x2', 'x2'))),
+        ('besselj(2,dy(dy(v)))', 3, fn('besselj', num(2), ch(v, 'y', 'y'))),
+        ('besselj(0,dx1(u))*u', 2, mul(fn('besselj', num(0), ch(u, 'x1')), ch(u))),
+        ('Heaviside(dx(u),dy(dy(u)))', 3, fn('Heaviside', ch(u, 'x'), ch(u, 'y', 'y'))),
+        # Piecewise: every branch after the first, and conditions
+        ('Piecewise((dx(u),u>0),(dy(dy(u)),True))', 3, pw((ch(u, 'x'), gt(ch(u))), (ch(u, 'y', 'y'), None))),
+        ('Piecewise((dx(u),u>0),(dx1(F[1]),v>1),(dy(dy(v)),True))', 3,
+         pw((ch(u, 'x'), gt(ch(u))), (ch(F1, 'x1'), gt(ch(v), 1)), (ch(v, 'y', 'y'), None))),
+        ('Piecewise((u,dx(dx(v))>0),(dy(u),True))', 3, pw((ch(u), gt(ch(v, 'x', 'x'))), (ch(u, 'y'), None))),
+        ('exp(Piecewise((dx1(u),x>0),(dx2(dx2(u)),True)))', 2, fn('exp', pw((ch(u, 'x1'), gt({'t': 'coord', 'i': 0})), (ch(u, 'x2', 'x2'), None)))),
+    ]
+    return [(label, {'dim': dim, 'root': root}) for label, dim, root in out]
+
+
+def check_kspec(m, envs, spec, label=None, extra_F=None):
+    """list of (key, what, op) — empty when get_max_* (overall, per function) equal the recorded maxima and SymbolicExpr
+    converts every chain in place; the second value is the number of calls made, the third a histogram tag"""
+    env = envs[spec['dim']]
+    dv, SE = m['dv'], m['SymbolicExpr']
+    ops = {'x': dv.dx, 'y': dv.dy, 'z': dv.dz, 'x1': dv.dx1, 'x2': dv.dx2, 'x3': dv.dx3}
+    root = spec['root']
+    try:
+        K = k_build(env, m, root, lambda c: spec_chain_real(env, ops, c))
+    except (ValueError, TypeError):      # sympy refuses the arguments (Max / Min of a Constant: 'not comparable')
+        return [], 0, 'skipped:refused-by-sympy'
+    chs = k_chains(root)
+    heads = k_heads(root)
+    funs = []
+    for c in chs:
+        if list(c['f']) not in funs:
+            funs.append(list(c['f']))
+    targets = [None] + funs[:3] + ([list(extra_F)] if extra_F else [])
+    # sympy may have cancelled / merged terms: the recorded chains must be the chains of the tree that was built
+    trav = all_chains(K, m)
+    for keys in (PHYS, LOGI):
+        for F in targets:
+            Fa = None if F is None else spec_atom(env, F)
+            if k_truth(chs, keys, F) != true_max(trav, keys, m, Fa):
+                return [], 0, 'skipped:rewritten-by-sympy'
+    tag = 'fixed:' + label if label else str(K)[:300]
+    bad, calls = [], 0
+    for lg, fmax, keys in ((False, dv.get_max_partial_derivatives, PHYS), (True, dv.get_max_logical_partial_derivatives, LOGI)):
+        for F in targets:
+            Fa = None if F is None else spec_atom(env, F)
+            want = k_truth(chs, keys, F)
+            r = call(fmax, K) if F is None else call(fmax, K, Fa)
+            calls += 1
+            got = triple(r[1], keys) if r[0] == 'ok' else repr(r[1])
+            if got != want:
+                bad.append(('multiarg-max:%s:%s:%s' % ('logical' if lg else 'physical', Fa, tag),
+                            '%s(%s%s) = %s, but the derivative chains put into the kernel give %s (chains: %s)' % (
+                                fmax.__name__, str(K)[:300], '' if F is None else ', F=%s' % Fa, got, want,
+                                ', '.join('%s:%s' % (spec_atom(env, c['f']), ''.join(c['cs']) or '-') for c in chs)[:300]), 'max'))
+    if not (heads & {'pw', 'Max', 'Min'}):      # Piecewise / Max / Min are not translated by SymbolicExpr (NotImplementedError)
+        want = k_build(env, m, root, lambda c: k_chain_symbol(env, m, c))
+        r = call(SE, K)
+        calls += 1
+        if r[0] == 'err':
+            bad.append(('multiarg-symb:' + tag, 'SymbolicExpr raises %s(%s) on %s' % (type(r[1]).__name__, r[1], str(K)[:300]), 'hom'))
+        elif not same_value(r[1], want, m):
+            bad.append(('multiarg-symb:' + tag, 'SymbolicExpr(%s) = %s, expected %s (every chain replaced by its symbol, in place)' % (
+                str(K)[:300], str(r[1])[:300], str(want)[:300]), 'hom'))
+    kind = 'piecewise' if 'pw' in heads else ('function' if heads & set(MULTI_FUNCTION) else ('max-min' if heads & set(MULTI_OTHER) else 'one-argument'))
+    return bad, calls, 'multiarg:' + kind
+
+
 def oracle(ctx, factor, seeds):
     m = mods()
     o = Oracle()
@@ -519,6 +851,27 @@ def oracle(ctx, factor, seeds):
     else:
         o.count('matrix:in-tuple')
 
+    # ---- functions of several arguments (atan2, Piecewise, undefined functions, besselj, Heaviside, Max, Min):
+    #      chains in every argument position; truth = the multi-indices recorded in the description
+    kspecs = [(label, sp, None) for label, sp in fixed_kspecs()]
+    for i in range((1200 if ctx.thorough else 200) * factor):
+        dim = rng.choice([1, 2, 2, 3, 3])
+        extra = None
+        if rng.random() < 0.15:     # sometimes also a function that need not occur
+            extra = ['s', rng.randrange(3)] if rng.random() < 0.5 else ['v', rng.randrange(3), rng.randrange(dim)]
+        kspecs.append((None, KGen(rng, dim).kspec(), extra))
+    for label, sp, extra in kspecs:
+        bad, calls, tag = check_kspec(m, envs, sp, label, extra)
+        o.evaluations += max(calls, 1)
+        if label and tag.startswith('skipped'):
+            o.count('multiarg:fixed-case-not-built')
+        for key, what, op in bad:
+            o.fail(key, what, kspec=sp, label=label, extra_F=extra, op=op)
+        if not bad:
+            o.count(tag, max(calls, 1))
+            if label and not tag.startswith('skipped'):
+                o.count('fixed-corpus:multiarg')
+
     # ---- bookkeeping on random kernels
     nk = (4000 if ctx.thorough else 700) * factor
     kernels = []
@@ -526,7 +879,7 @@ def oracle(ctx, factor, seeds):
         pass
     for i in range(nk):
         dim = rng.choice([1, 2, 2, 3, 3])
-        kernels.append((dim, Gen(rng, envs[dim], m).kernel()))
+        kernels.append((dim, Gen(rng, envs[dim], m, multi=True).kernel()))
     for dim, K in kernels:
         chains = all_chains(K, m)
         if any(not is_fun_atom(a, m) for a, _, _ in chains):
@@ -534,6 +887,8 @@ def oracle(ctx, factor, seeds):
             continue
         fs = fun_atoms(K, m)
         targets = [None] + fs[:3]
+        if any(len(x.args) > 1 for x in getattr(K, 'atoms', lambda *a: ())(sympy.Function)):
+            o.count('max:kernel-with-function-of-several-arguments')
         for lg, fmax, keys in ((False, dv.get_max_partial_derivatives, PHYS), (True, dv.get_max_logical_partial_derivatives, LOGI)):
             for F in targets:
                 o.evaluations += 1
@@ -644,6 +999,18 @@ def replay(ctx, path):
             print('REPLAY: still failing:', bad[1])
             return 1
         print('REPLAY: the recorded matrix / sequence is converted entry by entry again')
+        return 0
+
+    kspec = (d.get('detail') or {}).get('kspec')
+    if kspec:
+        m = mods()
+        envs = {dd: Env(dd, tag='c17') for dd in (1, 2, 3)}
+        bad, calls, tag = check_kspec(m, envs, kspec, d['detail'].get('label'), d['detail'].get('extra_F'))
+        still = [b for b in bad if b[0] == key] or bad
+        if still:
+            print('REPLAY: still failing:', still[0][1])
+            return 1
+        print('REPLAY: the recorded kernel (%s) now gives the recorded maxima (%d calls)' % (tag, calls))
         return 0
 
     class C:
